@@ -208,6 +208,11 @@ pub fn apply(rt: &mut CoreRuntime, op: &Value, lcd: bool, full: bool, out: &mut 
             // the host re-arms the timers at the current cycle (public TimerContext::reset), at any point of a run
             let c = rt.cycle_count();
             rt.timer.reset(c);
+            if a1 != 0 {
+                // ... and restarts the program: PC and S re-initialised (IMR/ISR follow as wimem ops)
+                rt.set_reg("PC", a1 as u32);
+                rt.set_reg("S", a2 as u32);
+            }
             out.push(json!({}));
         }
         "imem_or" => {
